@@ -230,6 +230,10 @@ class ApplicationPartPut(ApplicationBase):
                      bool(rights.intersect(access.permissions, "Ww")),
                      bool(rights.intersect(access.parent_permissions, "w")),
                      tag, write_whole_collection)
+            if (write_whole_collection and
+                    ("w" if prepared_tag else "W") not in access.permissions):
+                # The type of the new collection may only be known now
+                return httputils.NOT_ALLOWED
             props = prepared_props
             if prepared_exc_info:
                 logger.warning(
